@@ -5,7 +5,10 @@ PART A (equivalence).  A small subprocess grammar (xv/c03_gen.py) derives comman
 (plain words, quoted strings, `$V`, `${'V'}`, `@(ev)`, `$(..)`, `@$(..)`, redirects, a pipe, trailing `&`, `$V=1`
 prefix).  Every chain is placed in every statement POSITION (top level, after/before `;`, body of
 if/for/while/with/try/def at depth 1-3 with space/tab indents, backslash continuation at every word boundary,
-one-line compound statements).  From the SAME derivation the generator renders the bare program and its explicit
+one-line compound statements, and after a PRELUDE: earlier statements that bind every identifier of the line only
+in a scope that has ended - parameters of another def / async def / lambda, names local to a function or class body,
+comprehension variables, an `except ... as` name after its handler, a deleted name - so the names are still unbound
+at the line).  From the SAME derivation the generator renders the bare program and its explicit
 twin (each segment wrapped in `![...]` by the generator; subproc_toks is never used to build the twin).  All
 derivations within the stated deviation bounds are enumerated (never sampled).
   Oracle (from the statement "behaves exactly as if the user had wrapped each segment in ![...] by hand"):
@@ -27,7 +30,9 @@ derivations within the stated deviation bounds are enumerated (never sampled).
   drop features, plain words, fewer words, `||`/`and`/`or` -> `&&`, each step kept only if the same failure class
   persists) and the key names classes of the MINIMAL pair:
   A:<failure>:<position class>:<operators>:<special words>:<python-parsable | needs-recovery>.
-PART B (termination / totality).  Every string up to length n over the token alphabet of the design is fed to
+PART B (termination / totality).  Every string up to length n over the token alphabet of the design, plus every
+sequence of up to 5 (thorough 6) multi-character tokens (triple quotes of both kinds, newline, backslash-newline, blank, 4-blank
+indent, tab, `a`, `=`: logical lines spanning several physical lines with unrepairable errors), is fed to
 `XSH.execer.parse(s, ctx=set())`.  Allowed outcomes: a tree, None (empty input), SyntaxError.  Anything else is a
 violation: another exception type (keyed by type + xonsh function that raised + canonical minimal input), more than
 PARSE_BUDGET calls of parser.parse for one input, or more than WALL_S CPU seconds (signal alarm) - so a spinning
@@ -36,7 +41,8 @@ recovery loop is reported, it does not hang the check.  The same guards wrap eve
 Does NOT require (never flagged):
   * that any particular string is accepted: a pair where BOTH the bare line and its hand-wrapped twin are rejected
     is agreement; part B accepts SyntaxError for every input;
-  * anything about lines whose first word is a bound name or a Python keyword/builtin (C02's domain): command
+  * anything about lines whose first word is a bound name or a Python keyword/builtin (C02's domain; a `global`
+    declaration in an earlier function is left out of the preludes because whether it binds is not static): command
     words are ca/cb/cc/ta/tb/tc/pa/pb/pc/ia/cz, never bound; only ok, ctxm, ev, xs (used by the enclosing Python
     statements and @(ev)) and names assigned by the position scaffolding (n, i, fn) are bound;
   * identical trees: a tree that differs from the twin's but runs identically under every return-code assignment
